@@ -147,7 +147,7 @@ def task_misc(variant):
         E_ = chk.call(curves.Curve, [a, a, mids[0], b, b])
         chk.add("no-points-vs-points", chk.call(lambda: A_ == E_) is False, "a curve without control points differs from one with")
 
-    out += H.run_paths(ctx, fn, "S-con", "kv=%d,misc" % variant, dict(kind="c13", scenario="misc", variant=variant), body)
+    out += H.run_paths(ctx, fn, "S-con", "kv=%d,misc" % variant, dict(kind="c13", scenario="misc", variant=variant, task=("c13", "task_misc", [variant])), body)
 
     ctx = con.con_ctx(["A0", "A1", "A2"])
 
@@ -196,6 +196,8 @@ def replay(o):
             except Exception as e:
                 return True, "True, True", "%s: %s" % (type(e).__name__, str(e)[:100])
             return not (v1 and v2), "True, True", (v1, v2)
+        if w.get("task"):
+            return H.generic_replay(o)
         return False, "", "not replayed"
     pr = (w["pr"][0], tuple(w["pr"][1]), w["pr"][2], tuple(w["pr"][3]))
     variant = w["variant"]
